@@ -380,3 +380,46 @@ func TestValueLengths(t *testing.T) {
 		}
 	})
 }
+
+// hinted is a value whose type also reports a size estimate, as generated serializers do: an upper bound, not the
+// encoded length.
+type hinted struct{ b []byte }
+
+func (h *hinted) MarshalMsg(o []byte) ([]byte, error) { return append(o, h.b...), nil }
+func (h *hinted) UnmarshalMsg(b []byte) ([]byte, error) {
+	h.b = append([]byte(nil), b...)
+	return nil, nil
+}
+func (h *hinted) Msgsize() int { return len(h.b) + 9 }
+
+// The size limit applies to what is stored (the encoding), whatever the value's own size estimate says.
+func TestSizeLimitWithSizeEstimates(t *testing.T) {
+	ev.Guard(t, "TestSizeLimitWithSizeEstimates", func() {
+		seed := ev.SeedFor("TestSizeLimitWithSizeEstimates")
+		st := mptkit.NewStore([]string{"memory", "pndb"}[seed%2])
+		defer st.Close()
+		mpt := mptkit.NewTrie(st.DB, int64(seed%3), nil)
+		for i, short := range []int{0, 1, 5, 8, 9, 300} {
+			key := fmt.Sprintf("ab%02x", i)
+			val := bytes.Repeat([]byte{0x5a, byte(i), 0x3a}, util.MPTMaxAllowableNodeSize/3+1)[:util.MPTMaxAllowableNodeSize-short]
+			if _, err := mpt.Insert(util.Path(key), &hinted{val}); err != nil {
+				t.Fatalf("a value whose encoding has %d bytes (limit %d) and whose size estimate says %d was refused: %v", len(val), util.MPTMaxAllowableNodeSize, len(val)+9, err)
+			}
+			got, err := mpt.GetNodeValueRaw(util.Path(key))
+			if err != nil || !bytes.Equal(got, val) {
+				t.Fatalf("value of %d bytes under %q: lookup returns %d bytes (%v)", len(val), key, len(got), err)
+			}
+			if _, err := mpt.Insert(util.Path(key), mptkit.Val([]byte{1})); err != nil {
+				t.Fatalf("overwrite of the big value: %v", err)
+			}
+			ev.Case(fmt.Sprintf("hinted/%d", short), true, "size-limit-with-size-estimate")
+		}
+		before := append([]byte(nil), mpt.GetRoot()...)
+		if _, err := mpt.Insert(util.Path("abff"), &hinted{make([]byte, util.MPTMaxAllowableNodeSize+1)}); err == nil {
+			t.Fatalf("a value of limit+1 bytes was accepted")
+		}
+		if !bytes.Equal(before, mpt.GetRoot()) {
+			t.Fatalf("a refused over-size value changed the root")
+		}
+	})
+}
